@@ -71,6 +71,8 @@ type Contract struct {
 	Decreases  *Clause            // termination measure for recursive calls
 	FieldMode  *Clause            // field-congruence mode: this modulus is read as 0, arithmetic over the rationals
 	Variant    string
+	shadowed   *Contract // the default contract this one displaced until its `variant` clause was read
+	dupErr     error
 	Inherited string // contract inherited from this (identical) repository package
 	LoopAssert map[string][]Clause // ghost assertions at the end of a loop body (proved, then assumed)
 	LoopExitAssert map[string][]Clause // the same at `break` exits of the loop
@@ -253,7 +255,14 @@ func (u *Universe) parseContractFile(path, pkgPath string, deps bool) error {
 		line string
 	}
 	var pend []pending
+	var pendingDup *Contract
 	flush := func() error {
+		if pendingDup != nil {
+			// a second contract of a function that did not declare itself a variant
+			err := pendingDup.dupErr
+			pendingDup = nil
+			return err
+		}
 		for _, p := range pend {
 			txt := strings.TrimSpace(*p.text)
 			ex, err := parser.ParseExpr(txt)
@@ -450,7 +459,10 @@ func (u *Universe) parseContractFile(path, pkgPath string, deps bool) error {
 				}
 			}
 			if prev, dup := u.Contracts[pkgPath+"."+c.Key]; dup {
-				return fmt.Errorf("%s: duplicate contract for %s (also %s)", where, c.Key, prev.Where)
+				// allowed when this one turns out to be a variant (its `variant` clause restores prev)
+				c.shadowed = prev
+				c.dupErr = fmt.Errorf("%s: duplicate contract for %s (also %s)", where, c.Key, prev.Where)
+				pendingDup = c
 			}
 			u.Contracts[pkgPath+"."+c.Key] = c
 			curC = c
@@ -518,6 +530,13 @@ func (u *Universe) parseContractFile(path, pkgPath string, deps bool) error {
 			old := pkgPath + "." + curC.Key
 			if u.Contracts[old] == curC {
 				delete(u.Contracts, old)
+				if curC.shadowed != nil {
+					u.Contracts[old] = curC.shadowed
+					curC.shadowed, curC.dupErr = nil, nil
+					if pendingDup == curC {
+						pendingDup = nil
+					}
+				}
 			}
 			curC.Variant = rest
 			u.Contracts[old+"#"+rest] = curC
